@@ -226,6 +226,9 @@ def r4_bootstraps(ck, repo, nf):
         dims = [nf.poly(a, bsc, bi[0].node).canon() for a in (bv.args if not (len(bv.args) == 1 and isinstance(bv.args[0], (ast.Tuple, ast.List))) else bv.args[0].elts)]
         if dims and dims[0] not in ("model.n_ensemble", "n_ensemble"):
             okm, whym = False, f"reshape{tuple(dims)} of the (member, sample) index matrix does not keep the member axis leading: rows of different members are merged into one batch axis, members see each other's bootstrap samples"
+    if okm is None and any(isinstance(x, ast.Call) and (dotted(x.func) or "").endswith("resize") for x in ast.walk(bv)):
+        # resize works on the *flattened* array: dropping the incomplete batch this way cuts every member row at the wrong offset
+        okm, whym = False, "jnp.resize truncates the flattened (member, sample) matrix: unless the row length is a multiple of batch_size, the rows of members 1.. start inside the previous member's bootstrap sample"
     if okm is None:
         raise AnalysisError(f"{q}: batching of the bootstrap indices `{btxt[:80]}` is not a reshape + transpose this check can read")
     ck.ob("R4-bootstraps", q, "member-axis-preserved", okm, f"{bname} = {btxt}", whym, loc(mi, bi[0].value))
@@ -374,6 +377,7 @@ def run(ck, repo: Repo, tier: str):
 
 _E, _P, _R = "rl_blox/blox/probabilistic_ensemble.py", "rl_blox/algorithm/pets.py", "rl_blox/algorithm/pets_reward_models.py"
 MUTANTS = [
+    {"id": "c17-resize-batches", "file": "rl_blox/blox/probabilistic_ensemble.py", "rule": "R4", "find": "        batched_indices = shuffled_indices.reshape(\n            model.n_ensemble, batch_size, -1\n        ).transpose([2, 0, 1])", "replace": "        batched_indices = jnp.resize(shuffled_indices, (model.n_ensemble, shuffled_indices.shape[1] // batch_size, batch_size)).transpose([1, 0, 2])"},
     {"id": "c17-base-predict-double-vmap", "file": _E, "rule": "R1", "nth": 0, "find": "        log_var_i = self._safe_log_var_i(\n            log_var_i, self.min_log_var, self.max_log_var\n        )\n        return mean_i, jnp.exp(log_var_i)", "replace": "        log_var_i = self._safe_log_var(\n            log_var_i, self.min_log_var, self.max_log_var\n        )\n        return mean_i, jnp.exp(log_var_i)"},
     {"id": "c17-tsinf-vector-query", "file": _P, "rule": "R1", "find": "            jnp.hstack((obs, act))[jnp.newaxis], model_idx", "replace": "            jnp.hstack((obs, act)), model_idx"},
     {"id": "c17-wrapper-maps-bounds", "file": _E, "rule": "R1", "find": "        self._safe_log_var_i = nnx.vmap(safe_log_var, in_axes=(0, None, None))", "replace": "        self._safe_log_var_i = nnx.vmap(safe_log_var, in_axes=(0, 0, 0))"},
